@@ -124,9 +124,26 @@ def check(hyps, goal, timeout_ms=10000, want_model=True, second=False, first_ms=
         elif str(r2) == 'sat':
             res['disagreement'] = True
         sec[bk] = (str(r2), 0)
-    if res['result'] == 'unsat' and any(v[0] == 'sat' for v in sec.values()):
+    if res['result'] == 'unknown':
+        # counterexample search in a small scope: extra constraints only restrict, so `sat` is a genuine counter-model
+        from .values import collect_apps
+        lens = collect_apps(q, ('length',))
+        for bound in (1, 2):
+            try:
+                txt = to_smt2(q + [t <= bound for t in lens])
+            except Exception:
+                break
+            rr, d2 = run_cli([Z3_OLD, f'-T:{max(2, timeout_ms // 1000)}'], txt, max(2, timeout_ms / 1000))
+            sec[f'z3-4.8.12 scope<={bound}'] = (rr, round(d2, 3))
+            if rr == 'sat':
+                res.update(result='sat', backend=f'z3-4.8.12 (counterexample search, list lengths <= {bound})')
+                break
+            if rr == 'unsat':
+                continue
+    full = {k: v for k, v in sec.items() if 'scope' not in k}
+    if res['result'] == 'unsat' and any(v[0] == 'sat' for v in full.values()):
         res['disagreement'] = True
-    if res['result'] == 'sat' and any(v[0] == 'unsat' for v in sec.values()):
+    if res['result'] == 'sat' and any(v[0] == 'unsat' for v in full.values()):
         res['disagreement'] = True
     res['seconds'] = time.time() - t0
     return res
